@@ -8,7 +8,7 @@ from .values import (NONE, Num, Str, SStr, Cat, Obj, TupleV, Star, Choice, Opaqu
 from .absint import Raised, Unsupported, BOOL, SIGNS, _norm
 
 FORCED = frozenset(['len', 'range', 'isinstance', 'getattr', 'str', 'repr', 'float', 'int', 'bool', 'abs', 'dict',
-                    'list', 'tuple', 'type', 'sorted'])
+                    'list', 'tuple', 'type', 'sorted', 'max', 'min'])
 POS = frozenset([1])
 NONNEG = frozenset([0, 1])
 
@@ -254,6 +254,22 @@ def _call_builtin(I, st, f, name, args, kw, frame, node, where):
             return [(st, I.app('abs', [v], NONNEG))]
         if v is NONE:
             return [(st, Raised('TypeError', 'abs(None)', where))]
+    if name in ('max', 'min') and len(args) >= 2 and all(isinstance(a, Num) for a in args):
+        sets = [I.infer_signs(st, a.p) for a in args]
+        if name == 'min':
+            sets = [frozenset(-x for x in s2) for s2 in sets]
+        if any(s2 <= POS for s2 in sets):
+            sg = POS
+        elif any(s2 <= NONNEG for s2 in sets):
+            sg = NONNEG
+        elif all(s2 <= frozenset([-1]) for s2 in sets):
+            sg = frozenset([-1])
+        else:
+            sg = SIGNS
+        if name == 'min':
+            sg = frozenset(-x for x in sg)
+        r = I.app(name, args, sg)
+        return [(st, Num(r.p, all(a.isint for a in args)))]
     if name.startswith('math.'):
         fn = name[5:]
         nums = [a for a in args if isinstance(a, Num)]
